@@ -72,3 +72,19 @@ Theorem C33_total :
   exists r, copyfile_workflow ff_copy tab dest fields fs0 = Ok r.
 Proof. exact c33_total. Qed.
 Print Assumptions C33_total.
+
+(* result.save then writes `_result.pklz` (and the engine keeps `_job.pklz`, `_error.pklz`, `_return_values.pklz`)
+   in the same directory: those names are in the initial clash set, so no collected file has one of them and
+   the later write — a new file — leaves every collected file and every source with its content *)
+Theorem C33_save_safe :
+  forall copy_one, copy_contract copy_one ->
+  forall tab dest fs0 fields outs fs1 av n c,
+    sources_exist fs0 fields ->
+    copyfile_workflow copy_one tab dest fields fs0 = Ok (outs, fs1, av) ->
+    In n reserved_names -> ino_of fs0 (dest, n) = None ->
+    forall s d, In (s, d) (all_pairs fields (map fst outs)) ->
+      snd d <> (dest, n)
+      /\ read (dump fs1 (dest, n) c) (snd d) = read fs0 (snd s)
+      /\ read (dump fs1 (dest, n) c) (snd s) = read fs0 (snd s).
+Proof. exact c33_save_safe. Qed.
+Print Assumptions C33_save_safe.
